@@ -2,7 +2,12 @@
 
 package cache
 
-import "github.com/miekg/dns"
+import (
+	"context"
+
+	"github.com/miekg/dns"
+	"github.com/semihalev/sdns/middleware"
+)
 
 // Accessors for the C07 correspondence driver (no behaviour change).
 
@@ -18,4 +23,11 @@ func VerifC07Cached(c *Cache, req *dns.Msg) *dns.Msg {
 		return nil
 	}
 	return e.ToMsg(req)
+}
+
+// VerifC07AdditionalAnswer runs Cache.additionalAnswer on a cache whose only
+// wired part is the sub-pipeline Queryer q (the chase uses nothing else).
+func VerifC07AdditionalAnswer(ctx context.Context, q middleware.Queryer, msg *dns.Msg) *dns.Msg {
+	c := &Cache{queryer: q}
+	return c.additionalAnswer(ctx, msg)
 }
